@@ -56,6 +56,8 @@ struct ConnInner {
     dry: bool,          // fake backend: migration statements are logged, not executed
     vt_insert_prefix: String,
     faults: Vec<usize>,
+    fault_err: (String, String),          // (class, text) of the error returned by call-indexed faults
+    sfaults: Vec<(String, String, String)>, // persistent: every execution of this statement fails (sql, class, text)
     abort_at: Option<usize>,
     n: Cell<usize>,
     log: RefCell<Vec<Value>>,
@@ -106,8 +108,8 @@ impl Conn {
             std::process::abort();
         }
         if self.inner.faults.contains(&idx) {
-            self.record(kind, sql, false, Some("injected".into()), true);
-            return Err(DbErr::Custom("injected fault".into()));
+            self.record(kind, sql, false, Some(self.inner.fault_err.1.clone()), true);
+            return Err(make_err(&self.inner.fault_err.0, &self.inner.fault_err.1));
         }
         Ok(())
     }
@@ -139,6 +141,16 @@ impl Conn {
     }
 }
 
+/// error values of different classes: the generated code must not care
+fn make_err(class: &str, text: &str) -> DbErr {
+    match class {
+        "exec" => DbErr::Exec(sea_orm::RuntimeErr::Internal(text.to_string())),
+        "query" => DbErr::Query(sea_orm::RuntimeErr::Internal(text.to_string())),
+        "conn" => DbErr::Conn(sea_orm::RuntimeErr::Internal(text.to_string())),
+        _ => DbErr::Custom(text.to_string()),
+    }
+}
+
 impl Txn {
     pub fn get_database_backend(&self) -> DbBackend {
         self.conn.inner.backend
@@ -147,6 +159,11 @@ impl Txn {
     pub async fn execute_raw(&self, stmt: Statement) -> Result<ExecResult, DbErr> {
         let sql = stmt.sql.clone();
         self.conn.pre("txn_exec", &sql).await?;
+        if let Some((_, class, text)) = self.conn.inner.sfaults.iter().find(|f| f.0 == sql) {
+            // persistent fault: this statement fails every time it is executed
+            self.conn.record("txn_exec", &sql, false, Some(text.clone()), true);
+            return Err(make_err(class, text));
+        }
         let r = if self.conn.inner.dry && !sql.starts_with(&self.conn.inner.vt_insert_prefix) {
             // fake backend: the text is PostgreSQL/MySQL DDL; log it, keep the transaction alive
             self.txn.execute_raw(Statement::from_string(DbBackend::Sqlite, "SELECT 1")).await
@@ -398,6 +415,9 @@ async fn do_run(dispatch: Dispatch, migs: &[Value], prefix: &str, work: &Path, r
         let db = open(&path).await?;
         let faults: Vec<usize> = s["faults"].as_array().map(|a| a.iter().map(|x| x.as_u64().unwrap() as usize).collect()).unwrap_or_default();
         let abort_at = s["abort_at"].as_u64().map(|x| x as usize);
+        let fault_err = (s["fault_class"].as_str().unwrap_or("custom").to_string(), s["fault_text"].as_str().unwrap_or("injected fault").to_string());
+        let sfaults: Vec<(String, String, String)> = s["sfaults"].as_array().map(|a| a.iter().map(|x| (
+            x["sql"].as_str().unwrap_or("").to_string(), x["class"].as_str().unwrap_or("custom").to_string(), x["text"].as_str().unwrap_or("injected fault").to_string())).collect()).unwrap_or_default();
         let logfile = s["logfile"].as_str().map(PathBuf::from);
         conns.push(Conn {
             inner: Rc::new(ConnInner {
@@ -407,6 +427,8 @@ async fn do_run(dispatch: Dispatch, migs: &[Value], prefix: &str, work: &Path, r
                 dry,
                 vt_insert_prefix: format!("INSERT INTO {q}{}{q} (version, id)", vt),
                 faults,
+                fault_err,
+                sfaults,
                 abort_at,
                 n: Cell::new(0),
                 log: RefCell::new(Vec::new()),
@@ -504,7 +526,8 @@ async fn do_run(dispatch: Dispatch, migs: &[Value], prefix: &str, work: &Path, r
     let after = observe(&path, &vt).await?;
     let insts: Vec<Value> = (0..n)
         .map(|pid| json!({"log": conns[pid].inner.log.borrow().clone(), "result": results.borrow()[pid].clone(),
-                          "faults": specs[pid]["faults"].clone()}))
+                          "faults": specs[pid]["faults"].clone(), "sfaults": specs[pid]["sfaults"].clone(),
+                          "fault_class": specs[pid]["fault_class"].clone(), "fault_text": specs[pid]["fault_text"].clone()}))
         .collect();
     if !run["keep_db"].as_bool().unwrap_or(false) {
         rm_db(&path);
